@@ -28,6 +28,8 @@ mod pool_tracker;
 
 #[cfg(eigerco_lumina_verif)]
 pub use codec::verif_hooks as codec_verif_hooks;
+#[cfg(eigerco_lumina_verif)]
+pub(crate) use pool_tracker::verif_hooks as pool_tracker_verif_hooks;
 
 use crate::p2p::P2pError;
 use crate::p2p::shrex::client::Client;
